@@ -10,7 +10,8 @@ from symx import lib
 
 META = dict(
     bounds=dict(
-        quick=dict(mesh_n="(2,3), (3,2)", geometry="concrete: nm, um, m, km scale, with offsets", nvdim="1..3", mapping="every pairing of components with the two axes, partial mappings, explicit labels",
+        quick=dict(also="explicit multipliers far from the natural one on a sample with corners off the nanometre grid; option dictionaries reused across plots after in-place mask edits; 2-component lightness",
+                   mesh_n="(2,3), (3,2)", geometry="concrete: nm, um, m, km scale, with offsets", nvdim="1..3", mapping="every pairing of components with the two axes, partial mappings, explicit labels",
                    multiplier="default and explicit", filters="validity (symbolic bits), explicit filter field with symbolic values (same / coarser mesh)", plots="scalar, vector, contour, mpl(); lightness natively"),
         thorough=dict(mesh_n="(2,3), (3,2), (4,2)", geometry="as quick", nvdim="1..3", mapping="as quick", multiplier="as quick", filters="as quick", plots="as quick"),
     ),
